@@ -964,7 +964,12 @@ class Lib:
     # ---- dict methods -------------------------------------------------
     def md_get(self, st, d, node):
         eng = self.eng
-        k = eng.coerce(st, eng.eval(st, node.args[0]), "U")
+        kv = eng.eval(st, node.args[0])
+        k = eng.coerce(st, kv, "U")
+        if getattr(kv, "maybe_unhashable", False):
+            from .engine import HASHABLE
+            eng.require(st, HASHABLE(k), "TypeError", node.lineno,
+                        "unhashable dict key")
         default = eng.eval(st, node.args[1]) if len(node.args) > 1 else VNone()
         if d.val is None:
             return default
